@@ -182,3 +182,18 @@ def test_c17_reject_carrying_text_that_is_no_valid_utf16_does_not_raise():
     p, t = RRSDatagramProtocol(port=1), T()
     p.connection_made(t)
     p.datagram_received(bytes.fromhex("3242001000030900a1000f000000010a0000020a00000100d8415103"), ("192.0.2.1", 1))
+
+
+def test_c19_reflected_crc_leaves_the_callers_bitarray_alone():
+    import zlib
+    from bitarray import bitarray
+    from okdmr.dmrlib.etsi.crc.crc import BitCrcCalculator, BitCrcConfiguration
+
+    cfg = BitCrcConfiguration(width_bits=32, polynomial=0x04C11DB7, init_value=0xFFFFFFFF, final_xor_value=0xFFFFFFFF, reverse_input_bytes=True, reverse_output_bytes=True)
+    data = bytes.fromhex("b38f0aaccb")
+    b = bitarray()
+    b.frombytes(data)
+    first = BitCrcCalculator(cfg).calculate_checksum(b)
+    assert b.tobytes() == data
+    assert int(first.to01(), 2) == zlib.crc32(data)
+    assert BitCrcCalculator(cfg).calculate_checksum(b) == first
